@@ -286,7 +286,7 @@ L7_EXCEPTIONS = {
 }
 
 
-@rule("L7", "RESULT-ASSIGNED: a procedure standing in for a function assigns its result parameter on every normal path", ["C20"], floor=4)
+@rule("L7", "RESULT-ASSIGNED: a procedure standing in for a function assigns its result parameter on every normal path", ["C20", "C03"], floor=4)
 def l7(ctx: Ctx):
     L = b09lib(ctx)
     funcs = functional_procedures(ctx)
